@@ -62,6 +62,19 @@ theorem spec_lengths (P : Prims) (hP : LawfulPrims P) (authKey msgKey plain : By
   simp [Spec.msgKey, Spec.keys, Spec.keysV1, Spec.keysV1At, Spec.msgKeyLarge, Spec.sha256a, Spec.sha256b,
     substr_length, hP.sha256_len, hP.sha1_len]
 
+/-- **Bind layouts.**  The field sequences of `(*BindAuthKeyInner).Encode` and of the envelope written
+by `EncryptBindMessage` — regenerated from bind.go and interpreted by the model — are
+`bind_auth_key_inner#75a3f765 nonce:long temp_auth_key_id:long perm_auth_key_id:long
+temp_session_id:long expires_at:int` and `random:int128 msg_id:long seq_no:int(=0) msg_len:int message`;
+the random prefix is 16 bytes and the msg_key is taken before the alignment padding. -/
+theorem bind_layout_spec (i : BindInner) (msgID : Nat) (random payload : Bytes) :
+    i.encode = leN 4 0x75a3f765 ++ leN 8 i.nonce ++ leN 8 i.tempAuthKeyID ++ leN 8 i.permAuthKeyID ++
+      leN 8 i.tempSessionID ++ leN 4 i.expiresAt ∧
+    bindPuts Facts.C06.bindEnvelope i msgID random payload =
+      random ++ leN 8 msgID ++ leN 4 0 ++ leN 4 payload.length ++ payload ∧
+    Facts.C06.bindRandomLen = 16 ∧ Facts.C06.bindBlockSize = 16 ∧ Facts.C06.bindMsgKeyBeforePadding = true :=
+  ⟨BindInner.encode_def i, bindEnvelope_def i msgID random payload, rfl, rfl, rfl⟩
+
 /-- The bind message produced by `crypto.EncryptBindMessage` decrypts under the permanent key, with
 the *specification's* MTProto 1.0 derivation and `msg_key = substr (sha1 (message_data), 4, 16)`, to
 exactly the message id and the bound temp key id, perm key id, nonce, session and expiry; for every
@@ -81,8 +94,9 @@ theorem bind_roundtrip (P : Prims) (hP : LawfulPrims P) (rnd permKey keyId : Byt
     hpad hm h1 h2 h3 h4 h5
   simp only at henv
   unfold encryptBind
-  rw [hz]
-  simp only [Bool.false_eq_true, if_false, hl]
+  rw [hz, show Facts.C06.bindRandomLen = 16 from rfl, show Facts.C06.bindBlockSize = 16 from rfl,
+    show Facts.C06.bindMsgKeyBeforePadding = true from rfl]
+  simp only [bindEnvelope_def, Bool.false_eq_true, if_false, if_true, hl]
   have c1 : ¬ rnd.length < 16 := by omega
   have c2 : ¬ (rnd.drop 16).length < 8 := by simp; omega
   have c3 : ¬ (8 : Nat) = 0 := by decide
